@@ -66,6 +66,7 @@ type tcore struct {
 	ct    *caseT
 	c     *Core
 	keys  [][]byte
+	recoveryKeys [][]byte
 	root  string
 	phys  physical.Backend
 	rec   *verifx.Rec
@@ -132,6 +133,7 @@ func bootCore(t *testing.T, o coreOpts) (*tcore, error) {
 			return nil, fmt.Errorf("Initialize: %w", err)
 		}
 		tc.keys = res.SecretShares
+		tc.recoveryKeys = res.RecoveryShares
 		tc.root, err = c.DecodeSSCToken(res.RootToken)
 		if err != nil {
 			tc.shutdown()
